@@ -358,7 +358,7 @@ Record hist_case := {
 
 Definition case_cfg (h : hist_case) : pcfg :=
   match hi_steps h with c :: _ => e_cfg c | [] =>
-    {| p_cstream := false; p_pool_max := 0; p_proxy_max := 0; p_server_host := ""; p_host_is_name := false; p_keep_host := false;
+    {| p_cstream := false; p_pool_max := 0; p_proxy_max := 0; p_server_host := ""; p_host_is_name := false; p_keep_host := false; p_fail_codes := [];
        p_minlen := None; p_ra := {| a_on := false; a_body := ""; a_compress := false; a_decompress := false |};
        p_rs := {| a_on := false; a_body := ""; a_compress := false; a_decompress := false |} |} end.
 
